@@ -1222,6 +1222,10 @@ def run_copy_indep(case):
             # re-attribute: the untouched side changed
             o.fail("copy_independent", f"mutating the {who} through {name} changed the other object")
         check_state(o, mut, mmut, f"after {name} on the {who}: the mutated side", eq_check=False)
+        # the two objects now differ (by the model): == must notice it in both directions
+        if not mmut.equals(mother):
+            o.check(not (mut == other) and not (other == mut), "equality_detects_difference", f"after {name}: the containers still compare equal")
+            o.check((mut != other) and (other != mut), "equality_detects_difference", f"after {name}: != is False for different containers")
         return o.ok
 
     has_elem = n > 0 and (nmod is None or nmod > 0)
